@@ -59,10 +59,13 @@ type c02Case struct {
 	Dups  int        `json:"dups"`
 	Plan  *RoundPlan `json:"plan"`
 	Next  *RoundPlan `json:"next_round_crash"`
+	// Clock: the serving round runs with the clock stalled at ("stall"), before
+	// ("back") or one millisecond after ("plus1") the last committed tree head.
+	Clock string `json:"clock,omitempty"`
 }
 
 func (c *c02Case) String() string {
-	return fmt.Sprintf("start=%d pool=%d dups=%d plan=%s next=%s", c.Start, c.Pool, c.Dups, c.Plan.String(), c.Next.String())
+	return fmt.Sprintf("start=%d pool=%d dups=%d plan=%s next=%s clock=%s", c.Start, c.Pool, c.Dups, c.Plan.String(), c.Next.String(), c.Clock)
 }
 
 func runC02Case(r *Run, bases *baseStates, cc *c02Case) {
@@ -87,10 +90,25 @@ func runC02Case(r *Run, bases *baseStates, cc *c02Case) {
 		aw.start(li, li.Submit(cloneEntry(entries[rng.Intn(len(entries))]), false)) // duplicate of a pending entry
 	}
 	simNow.Add(17)
+	resume := simNow.Load()
+	if lock := env.LockSTH(); lock != nil {
+		switch cc.Clock {
+		case "stall":
+			simNow.Store(lock.Timestamp)
+		case "back":
+			simNow.Store(lock.Timestamp - int64(1+rng.Intn(3000)))
+		case "plus1":
+			simNow.Store(lock.Timestamp + 1)
+		}
+	}
 	ps, want := cc.Plan.Install(li.In)
 	slowCheckpoint(li.In)
 	err, crashed := li.Sequence(want)
 	li.In.Plan = nil
+	if cc.Clock != "" {
+		r.Count("clock_anomaly_rounds:"+cc.Clock, 1)
+		simNow.Store(resume + 3)
+	}
 	r.DistinctKey("ops:" + opsShape(ps.Recorded()))
 	if crashed || err != nil {
 		li.Abandon()
@@ -178,6 +196,10 @@ func TestC02Phases(t *testing.T) {
 				for _, ap := range []bool{false, true} {
 					cases = append(cases, &c02Case{Start: start, Pool: pool, Dups: 1, Next: &RoundPlan{Crash: &CrashSpec{Phase: "idx", Idx: i, Applied: ap}}})
 				}
+			}
+			for _, clk := range []string{"stall", "back", "plus1"} {
+				cases = append(cases, &c02Case{Start: start, Pool: pool, Dups: 1, Clock: clk})
+				cases = append(cases, &c02Case{Start: start, Pool: pool, Clock: clk, Plan: &RoundPlan{Faults: []FaultSpec{{2 + len(cases)%4, true}}}})
 			}
 			for i := 0; i < pick(3, 12); i++ {
 				cases = append(cases, &c02Case{Start: start, Pool: pool, Dups: 1, Next: &RoundPlan{Crash: &CrashSpec{Phase: "tiles", Mask: rng.U64()}}})
